@@ -171,28 +171,35 @@ Definition covers (r : nat) (k : N) (S R : list N) : bool :=
   let R' := dedupN (filter (fun x => memN x S) R) in
   forallb (fun q => memN q R || Nat.leb r (length (filter (fun x => closer k x q) R'))) S.
 
-Definition complete_b (p : params) (ctl : trace) (sends : list (N * list N)) (k a : N) : bool :=
-  no_swarm_change ctl a (a + p_W p) &&
-  covers (p_r p) k (w_swarm (st_at ctl a)) (recipients sends a (a + p_W p)).
+(* the last message for k within W of a *)
+Definition window_end (sends : list (N * list N)) (a w : N) : N :=
+  fold_left (fun m s => if (a <=? fst s) && (fst s <=? a + w) then N.max m (fst s) else m) sends a.
 
-(* candidate advertisements of k: windows [a, a+W] starting at a send *)
-Definition ads_of (p : params) (ctl : trace) (sends : list (N * list N)) (k : N) : list N :=
-  filter (complete_b p ctl sends k) (dedupN (map fst sends)).
+Definition complete_b (p : params) (ctl : trace) (sends : list (N * list N)) (k a : N) : bool :=
+  let b := window_end sends a (p_W p) in
+  no_swarm_change ctl a b &&
+  covers (p_r p) k (w_swarm (st_at ctl a)) (recipients sends a b).
+
+(* candidate advertisements of k: windows [a, b] starting at a message, ending at the last
+   message within W *)
+Definition ads_of (p : params) (ctl : trace) (sends : list (N * list N)) (k : N) : list (N * N) :=
+  map (fun a => (a, window_end sends a (p_W p)))
+      (filter (complete_b p ctl sends k) (dedupN (map fst sends))).
 
 Definition restarts_of (ctl : trace) : list N :=
   flat_map (fun e => match e with ERestart t => [t] | _ => [] end) ctl.
 
-Definition freshb (p : params) (ads rs : list N) (t : N) : bool :=
-  existsb (fun a => (a + p_W p <=? t) && (t <=? a + p_D p)) ads ||
+Definition freshb (p : params) (ads : list (N * N)) (rs : list N) (t : N) : bool :=
+  existsb (fun ab => (snd ab <=? t) && (t <=? fst ab + p_D p)) ads ||
   existsb (fun rho => (rho <=? t) && (t <=? rho + p_D p) &&
-                      existsb (fun a => (a + p_W p <=? rho) && (rho <=? a + p_D p)) ads) rs.
+                      existsb (fun ab => (snd ab <=? rho) && (rho <=? fst ab + p_D p)) ads) rs.
 
 Definition hypb (p : params) (ctl : trace) (k t : N) : bool :=
   all_in_range ctl (okb k) (t - p_G p) t.
 
 (* the only times at which "hypothesis holds and not fresh" can begin *)
-Definition crit (p : params) (ctl : trace) (ads : list N) : list N :=
-  p_G p :: map (fun a => a + p_D p + 1) (ads ++ restarts_of ctl) ++ map (fun e => time e + p_G p) ctl.
+Definition crit (p : params) (ctl : trace) (ads : list (N * N)) : list N :=
+  p_G p :: map (fun a => a + p_D p + 1) (map fst ads ++ restarts_of ctl) ++ map (fun e => time e + p_G p) ctl.
 
 Definition chk_fresh_key (p : params) (ctl tr : trace) (k : N) : bool :=
   let sends := sends_of k tr in
@@ -244,7 +251,7 @@ Definition once_ok (p : params) (ctl full : trace) (t k : N) (post : trace) : bo
          && all_in_range ctl w_up (t - p_G p) (t + p_G p)
          && negb (stop_before k (t + p_G p) post))
         (let sends := sends_of k full in
-         existsb (fun a => (t <=? a) && (a + p_W p <=? t + p_G p) && complete_b p ctl sends k a)
+         existsb (fun a => (t <=? a) && (window_end sends a (p_W p) <=? t + p_G p) && complete_b p ctl sends k a)
                  (map fst sends)).
 
 Fixpoint chk_once (p : params) (ctl full : trace) (tr : trace) : bool :=
